@@ -588,21 +588,22 @@ Qed.
 
 (* ---------- iteration ---------- *)
 Theorem iter_rows_bounds_lemma t a b c d :
-  let r0 := match a with Some x => x | None => 0 end in
-  let r1 := match b with Some x => x | None => nrows t - 1 end in
-  let c0 := match c with Some x => x | None => 0 end in
-  let c1 := match d with Some x => x | None => ncols t - 1 end in
-  (r0 < 0 \/ nrows t <= r1 \/ c0 < 0 \/ ncols t <= c1) ->
+  (bound_bad a (nrows t) = true \/ bound_bad b (nrows t) = true \/ bound_bad c (ncols t) = true \/ bound_bad d (ncols t) = true) ->
   iter_rows t a b c d = Err IndexError /\ iter_cols t c d a b = Err IndexError.
 Proof.
-  intros r0 r1 c0 c1 H. unfold iter_rows, iter_cols. fold r0 r1 c0 c1.
-  destruct (Z.ltb_spec r0 0); [split; reflexivity|]. destruct (Z.leb_spec (nrows t) r1); [split; reflexivity|].
-  destruct (Z.ltb_spec c0 0); [split; reflexivity|]. destruct (Z.leb_spec (ncols t) c1); [split; reflexivity|]. lia.
+  intros H. unfold iter_rows, iter_cols.
+  destruct (bound_bad a (nrows t)), (bound_bad b (nrows t)), (bound_bad c (ncols t)), (bound_bad d (ncols t));
+    cbn [orb]; try (split; reflexivity); destruct H as [H|[H|[H|H]]]; discriminate.
 Qed.
+
+Lemma bound_bad_some x n : bound_bad (Some x) n = true <-> (x < 0 \/ n <= x).
+Proof. unfold bound_bad. rewrite orb_true_iff, Z.ltb_lt, Z.leb_le. reflexivity. Qed.
+Lemma bound_ok_some x n : 0 <= x < n -> bound_bad (Some x) n = false.
+Proof. intros H. unfold bound_bad. destruct (Z.ltb_spec x 0); [lia|]. destruct (Z.leb_spec n x); [lia|]. reflexivity. Qed.
 
 (* inside the table, iteration yields exactly the addressed rectangle, row by row (resp. column by column), in order *)
 Theorem iter_rows_rectangle_lemma t r0 r1 c0 c1 :
-  0 <= r0 -> r1 < nrows t -> 0 <= c0 -> c1 < ncols t ->
+  0 <= r0 < nrows t -> 0 <= r1 < nrows t -> 0 <= c0 < ncols t -> 0 <= c1 < ncols t ->
   iter_rows t (Some r0) (Some r1) (Some c0) (Some c1) =
     Ok (map (fun r => py_slice (nth (Z.to_nat r) (data t) []) c0 (c1 + 1)) (zrange r0 (r1 + 1))) /\
   iter_cols t (Some c0) (Some c1) (Some r0) (Some r1) =
@@ -610,8 +611,7 @@ Theorem iter_rows_rectangle_lemma t r0 r1 c0 c1 :
                                (py_slice (data t) r0 (r1 + 1))) (zrange c0 (c1 + 1))).
 Proof.
   intros H0 H1 H2 H3. unfold iter_rows, iter_cols.
-  destruct (Z.ltb_spec r0 0); [lia|]. destruct (Z.leb_spec (nrows t) r1); [lia|].
-  destruct (Z.ltb_spec c0 0); [lia|]. destruct (Z.leb_spec (ncols t) c1); [lia|]. split; reflexivity.
+  rewrite !bound_ok_some by assumption. cbn [orb]. split; reflexivity.
 Qed.
 
 Lemma py_slice_length {A} (l : list A) a b : 0 <= a -> b <= Z.of_nat (length l) ->
@@ -620,7 +620,7 @@ Proof. intros. unfold py_slice. rewrite firstn_length, skipn_length. lia. Qed.
 
 (* ... and the rectangle has the addressed shape: r1-r0+1 lines of c1-c0+1 cells *)
 Theorem iter_rows_shape_lemma t r0 r1 c0 c1 L : wf t ->
-  0 <= r0 -> r1 < nrows t -> 0 <= c0 -> c1 < ncols t ->
+  0 <= r0 < nrows t -> 0 <= r1 < nrows t -> 0 <= c0 < ncols t -> 0 <= c1 < ncols t ->
   iter_rows t (Some r0) (Some r1) (Some c0) (Some c1) = Ok L ->
   length L = Z.to_nat (r1 + 1 - r0) /\ Forall (fun line => length line = Z.to_nat (c1 + 1 - c0)) L.
 Proof.
@@ -635,3 +635,16 @@ Proof.
   pose proof (proj1 (Forall_forall _ _) C row (nth_error_In _ _ E)) as Hl. cbn beta in Hl.
   apply py_slice_length; lia.
 Qed.
+
+(* the per-edit statements on the domain the repaired code and the model share: a count between zero and what
+   the table has from the start index (a longer count is cut short by the code; the model is not used there) *)
+Definition del_in_domain (ext n : Z) (s : option Z) : Prop :=
+  0 <= n /\ match s with Some x => x + n <= ext | None => n <= ext end.
+Lemma delete_row_refines_dom t n s t' : del_in_domain (nrows t) n s -> delete_row t n s = Ok t' ->
+  vals t' = p_del_row (vals t) n s /\ nrows t' = nrows t - n /\ ncols t' = ncols t.
+Proof. intros _. apply delete_row_refines. Qed.
+Lemma delete_column_refines_dom t n s t' : del_in_domain (ncols t) n s -> delete_column t n s = Ok t' ->
+  vals t' = p_del_col (vals t) n s /\ nrows t' = nrows t /\ ncols t' = ncols t - n.
+Proof. intros _. apply delete_column_refines. Qed.
+Lemma delete_zero_is_identity_vals t s t' : delete_row t 0 s = Ok t' -> nrows t' = nrows t /\ ncols t' = ncols t.
+Proof. intros H. destruct (delete_row_refines t 0 s t' H) as (_ & A & B). split; lia. Qed.
